@@ -9,6 +9,8 @@ Postconditions are taken from the property statements (C16, C02):
 """
 from __future__ import annotations
 
+import ast
+
 from pyvc import term as tm
 from pyvc.term import INT, BOOL, STR
 from pyvc.values import VT, VObj, VNone, NONE, VTuple, VList
@@ -157,6 +159,7 @@ class End(SpanLike):
 
 # ------------------------------------------------------------------------------------------------ search
 class SearchLoop(LoopSpec):
+    kind, iterates = ast.For, "range"
     def invariant(self, ex, st, ctx):
         a = ctx["args"]
         j = tm.V("j", INT)
@@ -290,6 +293,7 @@ def tr1_term(c):
 
 
 class TranscribeLoop(LoopSpec):
+    kind = ast.For
     def havoc(self, ex, st, ctx, modified):
         st = LoopSpec.havoc(self, ex, st, ctx, modified)
         st.env["target"] = ex.models.mk_symlist(st, tm.fresh("target", tm.seq_sort(STR)))
